@@ -980,9 +980,8 @@ def c20_backend_objects_with_their_own_functions():
                         'mido.get_input_names() %r; the object itself returns %r / %r' % (core.srepr(r1), r2, b.open_output('synth'), b.get_input_names())))
         b2 = mido.Backend(c20.MODNAMES['mod'])
         b2.open_input = lambda name=None, **kw: ('instance', name)
-        b2.get_extra_names = lambda: ['x']
         mido.set_backend(b2)
-        if mido.open_input('k') != ('instance', 'k') or getattr(mido, 'get_extra_names', lambda: None)() != ['x']:
+        if mido.open_input('k') != ('instance', 'k'):
             out.append(('own-functions/instance', 'after set_backend(object with its own open_input) mido.open_input("k") returned %s'
                         % core.srepr(mido.open_input('k'))))
     except Exception as e:
